@@ -114,7 +114,7 @@ def run(ctx, replay=None):
     if rc != 0:
         ctx.violation("C10:driver-crash", "driver failed: " + err[-600:], {"stderr": err[-3000:]}, False)
     cases = []
-    for l in out.splitlines():
+    for l in out.split("\n"):      # not splitlines(): error texts may contain U+0085 etc. from binary HTTP bodies
         if l.strip():
             c = json.loads(l)
             for k in ("seq", "attrs", "hits"):
